@@ -49,8 +49,45 @@ pub fn install_quiet_panic_hook() {
     let prev = std::panic::take_hook();
     std::panic::set_hook(Box::new(move |info| {
         let quiet = QUIET.try_with(|q| q.get() > 0).unwrap_or(false);
-        if !quiet {
+        // panics that are part of a scenario script carry the word "scripted"
+        let scripted = info.payload().downcast_ref::<&str>().map(|s| s.contains("scripted")).unwrap_or(false)
+            || info.payload().downcast_ref::<String>().map(|s| s.contains("scripted")).unwrap_or(false);
+        if !quiet && !scripted {
             prev(info);
         }
     }));
+}
+
+pub mod proc {
+    //! "Proving stuck": CPU time of the process's other threads over an interval.
+    use std::time::Duration;
+
+    /// Sum of utime+stime (clock ticks) over all threads of this process, and the number of threads.
+    pub fn cpu_ticks_all_threads() -> Option<(u64, usize)> {
+        let mut total = 0u64;
+        let mut n = 0usize;
+        for e in std::fs::read_dir("/proc/self/task").ok()? {
+            let e = e.ok()?;
+            if let Ok(stat) = std::fs::read_to_string(e.path().join("stat")) {
+                // fields after the last ')' : state ppid ... utime(14) stime(15) (1-based overall)
+                if let Some(rest) = stat.rsplit_once(')') {
+                    let f: Vec<&str> = rest.1.split_whitespace().collect();
+                    if f.len() > 13 {
+                        total += f[11].parse::<u64>().unwrap_or(0) + f[12].parse::<u64>().unwrap_or(0);
+                        n += 1;
+                    }
+                }
+            }
+        }
+        Some((total, n))
+    }
+
+    /// True if no thread of the process consumed CPU during `interval` (sampled twice).
+    /// Only meaningful when the caller itself sleeps meanwhile and no unrelated work runs in the process.
+    pub fn quiescent(interval: Duration) -> Option<bool> {
+        let a = cpu_ticks_all_threads()?;
+        std::thread::sleep(interval);
+        let b = cpu_ticks_all_threads()?;
+        Some(a.0 == b.0)
+    }
 }
